@@ -469,6 +469,31 @@ def oracle_conservation(ops, impl, model):
             for den in set(a) | set(b):
                 if b[den] != a[den]:
                     out.append({"line": i, "op": " ".join(t)[:300], "opkind": "next", "detail": "next_unsealed changed the total of %s" % den[:16]})
+        elif kind == "block":
+            # next_unsealed + batch + seal in one step: declared issuance of the batch, plus what sealing may add
+            if any(x is None for x in txs):
+                continue
+            iss = declared_issuance(txs, orc)
+            liq = set(orc.get("l", {}).values())
+            bound = supply(mpost) if mpost is not None else None
+            pre_pools = set(e.split("=")[0] for e in pre.get("pools", []))
+            for e in post.get("pools", []):
+                k = e.split("=")[0]
+                if k not in pre_pools and k in ("73", "64", ZERO + "016401" + "73"):
+                    l, r = pool_sides(k)
+                    iss[l] += 10 ** 9
+                    iss[r] += 10 ** 9
+            leg = legacy(int(pre["net"]), int(pre["h"]) + 1, 978392) and any(x["kind"] == K_DEP for x in txs)
+            for den in set(a) | set(b):
+                if den in liq:
+                    continue
+                if den in (MEL, SYM):
+                    if bound is not None and b[den] > max(bound[den], a[den] + iss[den]):
+                        out.append({"line": i, "op": " ".join(t)[:600], "opkind": "block",
+                                    "detail": "applying the block grew %s from %d to %d, more than issuance+subsidy+peg allow (%d)" % (den, a[den], b[den], bound[den])})
+                elif b[den] > a[den] + iss[den]:
+                    out.append({"line": i, "op": " ".join(t)[:600], "opkind": "block", "legacy": "deposit-window" if leg else "no",
+                                "detail": "sealing grew denomination %s from %d to %d (block; declared issuance %d)" % (den[:16], a[den], b[den], iss[den])})
         elif kind == "seal":
             liq = set(orc.get("l", {}).values())
             bound = supply(mpost) if mpost is not None else None
